@@ -1,7 +1,7 @@
 (* C01 -- One owner per host, chosen identically on every replica and in every event order.
    Only statements, each closed by [exact] and followed by Print Assumptions. *)
 From Coq Require Import List ZArith String Bool Permutation.
-From NIC Require Import Base.SMap Arb.Types Arb.Model Arb.Spec Arb.WinsProofs Arb.InvProofs Arb.OwnerProofs.
+From NIC Require Import Base.SMap Arb.Types Arb.Model Arb.Spec Arb.WinsProofs Arb.InvProofs Arb.OwnerProofs Arb.Cases Arb.HostnameCase.
 Import ListNotations.
 Open Scope Z_scope.
 
@@ -95,3 +95,22 @@ Proof.
   intros x y Hx Hy Hne. vm_compute in Hx, Hy.
   destruct Hx as [<-|[<-|[<-|[]]]]; destruct Hy as [<-|[<-|[<-|[]]]]; try congruence; vm_compute; discriminate.
 Qed.
+
+(* One owner per HOSTNAME, however it is spelled (DNS names, NGINX server names and the keys of the TLS passthrough map
+   ignore letter case).  The host map is keyed by the string as written; the API server admits lower-case Ingress
+   hosts only and the validators of VirtualServer / TransportServer reject capitals, so every stored object
+   carries lower-case hosts ([ev_lower]: an event that stores an object -- own class and valid -- has lower-case hosts).
+   Then no two keys of the host map are one hostname: [ci_dup] -- the judge the harness runs on the keys of the
+   implementation's Configuration.hosts after every event -- is false in every reachable state. *)
+Theorem C01_one_owner_per_hostname_any_spelling :
+  forall c es, Forall ev_lower es -> ci_dup (keys (hosts (run c es))) = false.
+Proof. exact one_owner_per_hostname. Qed.
+Print Assumptions C01_one_owner_per_hostname_any_spelling.
+
+(* non-vacuity: the premise is needed -- the same hostname in two spellings, both stored, gives two owners *)
+Example C01_two_spellings_two_owners :
+  ci_dup (keys (hosts (run exC [EVS (mkVS (mkMeta "ns" "v" "u1" 200 1 0) "H.example.com" [] None) true true;
+                               EVS (mkVS (mkMeta "ns" "w" "u2" 300 1 0) "h.example.com" [] None) true true]))) = true
+  /\ ci_dup (keys (hosts (run exC [EVS (mkVS (mkMeta "ns" "v" "u1" 200 1 0) "H.example.com" [] None) true false;
+                                  EVS (mkVS (mkMeta "ns" "w" "u2" 300 1 0) "h.example.com" [] None) true true]))) = false.
+Proof. split; vm_compute; reflexivity. Qed.
